@@ -156,12 +156,20 @@ pub fn for_each_source(t: &Tree, sc: &Scratch, mode: Mode, st: &mut SrcStats, f:
         st.fs += 1;
         st.us_build_fs += t0.elapsed().as_micros() as u64;
         f(&fs, &Variant::plain("fs", "links-to-files"), None);
+        // the embedding macro walks the directory at compile time: it must follow links as the
+        // file-system source does
+        let store = mk::embed_expand(&lf)?;
+        st.embedded += 1;
+        mk::with_embedded(&store, |emb| f(emb, &Variant::plain("embedded", "tables, tree of links-to-files"), None));
         if !t.dirs.is_empty() {
             let ld = sc.base.join("ld");
             mk::write_tree_links(&ld, &root, t, true).map_err(mach("write linked tree (dirs)"))?;
             let fs = FileSystem::new(&ld).map_err(mach("FileSystem::new"))?;
             st.fs += 1;
             f(&fs, &Variant::plain("fs", "links-to-dirs"), None);
+            let store = mk::embed_expand(&ld)?;
+            st.embedded += 1;
+            mk::with_embedded(&store, |emb| f(emb, &Variant::plain("embedded", "tables, tree of links-to-dirs"), None));
         }
     }
 
@@ -258,6 +266,18 @@ pub fn for_each_source(t: &Tree, sc: &Scratch, mode: Mode, st: &mut SrcStats, f:
                 Err(e) => st.open_failures.push((v.clone(), e.to_string())),
             }
         }
+        {
+            // a reader that hands out its bytes in small pieces (Read::read may always return less than asked)
+            let mut v2 = v.clone();
+            v2.backing = "reader with short reads";
+            match Zip::from_reader(ShortReads::new(bytes.clone())) {
+                Ok(z) => {
+                    st.zip_mem += 1;
+                    f(&z, &v2, None)
+                }
+                Err(e) => st.open_failures.push((v2, e.to_string())),
+            }
+        }
         let p = sc.base.join(if deflate { "archive-zip-deflated" } else { "archive-zip-stored" });
         std::fs::write(&p, &bytes).map_err(mach("write zip"))?;
         v.backing = "file";
@@ -338,6 +358,17 @@ pub fn for_each_source(t: &Tree, sc: &Scratch, mode: Mode, st: &mut SrcStats, f:
                 Err(e) => st.open_failures.push((v.clone(), e.to_string())),
             }
         }
+        {
+            let mut v2 = v.clone();
+            v2.backing = "reader with short reads";
+            match Tar::from_reader(ShortReads::new(bytes.clone())) {
+                Ok(z) => {
+                    st.tar_mem += 1;
+                    f(&z, &v2, None)
+                }
+                Err(e) => st.open_failures.push((v2, e.to_string())),
+            }
+        }
         let p = sc.base.join("archive-tar");
         std::fs::write(&p, &bytes).map_err(mach("write tar"))?;
         v.backing = "file";
@@ -350,6 +381,46 @@ pub fn for_each_source(t: &Tree, sc: &Scratch, mode: Mode, st: &mut SrcStats, f:
         }
     }
     Ok(())
+}
+
+/// An in-memory reader whose `read` never returns more than 1000 bytes and never crosses a 4 KiB
+/// boundary: `Read::read` is allowed to return less than was asked for, whatever the reader.
+#[derive(Clone)]
+pub struct ShortReads {
+    data: std::sync::Arc<Vec<u8>>,
+    pos: u64,
+}
+impl ShortReads {
+    pub fn new(data: Vec<u8>) -> Self {
+        ShortReads { data: std::sync::Arc::new(data), pos: 0 }
+    }
+}
+impl std::io::Read for ShortReads {
+    fn read(&mut self, buf: &mut [u8]) -> std::io::Result<usize> {
+        let pos = self.pos as usize;
+        if pos >= self.data.len() || buf.is_empty() {
+            return Ok(0);
+        }
+        let to_page = 4096 - pos % 4096;
+        let n = buf.len().min(1000).min(to_page).min(self.data.len() - pos);
+        buf[..n].copy_from_slice(&self.data[pos..pos + n]);
+        self.pos += n as u64;
+        Ok(n)
+    }
+}
+impl std::io::Seek for ShortReads {
+    fn seek(&mut self, s: std::io::SeekFrom) -> std::io::Result<u64> {
+        let new = match s {
+            std::io::SeekFrom::Start(n) => n as i64,
+            std::io::SeekFrom::End(d) => self.data.len() as i64 + d,
+            std::io::SeekFrom::Current(d) => self.pos as i64 + d,
+        };
+        if new < 0 {
+            return Err(std::io::Error::new(std::io::ErrorKind::InvalidInput, "seek before start"));
+        }
+        self.pos = new as u64;
+        Ok(self.pos)
+    }
 }
 
 fn reduced_orders(t: &Tree, ml: &[M]) -> Vec<(String, Vec<M>)> {
